@@ -841,8 +841,9 @@ impl World {
 
     // ---- bookkeeping called by the parties ---------------------------------------------------
 
-    pub fn begin_send(&mut self, msg_index: usize, frame: Vec<u8>, val: Val, poisoned: bool) {
-        let len = frame.len();
+    /// `frame` = the first `len` bytes of the value as far as the value's own `as_bytes()`
+    /// exposes them (it may stop short of `size()` inside the trailing padding).
+    pub fn begin_send(&mut self, msg_index: usize, frame: Vec<u8>, len: usize, val: Val, poisoned: bool) {
         self.attempts.push(Attempt {
             msg_index,
             frame,
